@@ -261,7 +261,8 @@ def c03(v, h, op, res, k, prev):
             continue
         ostart, orollup, oend, oreason = o[4], o[5], o[6], o[7]
         timeout = reason == 'activation_timeout' and oreason != 'activation_timeout'      # this report MARKS the timeout
-        corrected = oend is not None and end is not None and end < oend
+        # the report leaves the attempt with an end earlier than the time already billed (cf. Clamp.billed4_monotone)
+        corrected = end is not None and orollup is not None and end < orollup
         if billed(a) < billed(o) and not timeout and not corrected:
             h.report('C03', f'C03:billed-time-decreased:after-{op["op"]}', k, {'before': list(o), 'after': list(a)})
         if ostart is not None and not timeout and (start is None or start > ostart):
